@@ -99,6 +99,9 @@ def case_diff(r, st, quick):
             if api in ("diffs", "taylor"):
                 n = min(n, 5)
         t = {"kind": "diff", "api": api, "prec": prec, "fam": fam, "x": rtok(x), "n": n, "opts": opts, "timeout": 20 if quick else 120}
+        if api == "diffun" and r.random() < 0.6:
+            t["make_prec"] = r.choice([q for q in PRECS if q != prec] or [prec + 40])
+            st.note("diffun_made_at", "lower" if t["make_prec"] < prec else "higher")
         st.note("family", fam["fam"]); st.note("order", n); st.note("option", ",".join(sorted(opts)) or "default")
         ft = fam_tokens(fam)
         if api in ("diff", "diffun"):
